@@ -140,6 +140,9 @@ def oracle_only(prop, case):
             if op[0] == "mutations" and hasattr(prop, "expand_ops"):
                 queue = list(prop.expand_ops(op, py)) + queue
                 continue
+            if op[0] == "mcheck":
+                replies.append("ok")
+                continue
             op = execs.expand(op, py)
             try:
                 replies.append(py.apply(op))
